@@ -35,11 +35,11 @@ Theorem C39_greedy_positions_first : forall labs l p,
   l <> 0%nat /\ nth_error labs p = Some l /\ ((0 < p)%nat -> nth_error labs (p - 1) <> Some l).
 Proof. exact collapse_pos_first. Qed.
 
-(* (3) tie-breaking as coded (Iterator::max_by): the LAST maximal index *)
-Theorem C39_argmax_last_max : forall r : row, r <> [] ->
+(* (3) tie-breaking as coded (max_position_by): the FIRST maximal index *)
+Theorem C39_argmax_first_max : forall r : row, r <> [] ->
   (argmax_row r < length r)%nat /\
   (forall j, (j < length r)%nat -> wt r j <= wt r (argmax_row r)) /\
-  (forall j, (argmax_row r < j < length r)%nat -> wt r j < wt r (argmax_row r)).
+  (forall j, (j < argmax_row r)%nat -> wt r j < wt r (argmax_row r)).
 Proof. exact argmax_row_spec. Qed.
 
 (* ------------------------------- beam ------------------------------- *)
@@ -118,9 +118,9 @@ Proof. exact beam_ok_sound. Qed.
 
 (* ------------------------------- non-vacuity ------------------------------- *)
 Example C39_nonvacuous :
-  (* greedy on the path "a--bb" of the doc comment: ('a',0), ('b',3); a tie picks the last index *)
+  (* greedy on the path "a--bb" of the doc comment: ('a',0), ('b',3); a tie picks the first index *)
   greedy_steps [[0;16;0]; [16;0;0]; [16;0;0]; [0;0;16]; [0;0;16]] = [(1,0); (2,3)]%nat
-  /\ argmax_row [4;4;4] = 2%nat
+  /\ argmax_row [4;4;4] = 0%nat
   (* a pruned run: beam 1 keeps [1] after frame 0 and loses the alignment (blank, 1):
      score 208/256 < exact 226/256 *)
   /\ map (fun s => (hyp_labels s, total s, exact 2 [[3;13];[10;6]] (hyp_labels s)))
